@@ -87,7 +87,13 @@ def _run_cfg(args):
 def discharge(obls, facts_of, timeout_s=10, procs=None, use_cvc5=True, seed=0):
     """obls: list of Obl; facts_of(obl) -> list of z3 facts.  Sets obl.result in
     {'proved','refuted','undecided','error'} (+ 'covered' etc. for expect != 'unsat')."""
-    procs = procs or min(16, os.cpu_count() or 4)
+    # one solver process per core this process may actually run on (a 20 s budget is wall-clock time: more processes than
+    # cores would turn machine load into time-outs)
+    try:
+        avail = len(os.sched_getaffinity(0))
+    except (AttributeError, OSError):
+        avail = os.cpu_count() or 4
+    procs = procs or max(1, min(16, avail))
     jobs = []
     for o in obls:
         goal = o.goal
